@@ -1,15 +1,32 @@
 """C01 — every program of a simulation set faces the identical emission scenario.
 
-Lean: Props/C01.lean (activateSrc_spec, runSrc_spec, runProgram_eq, activate_complete, C01,
-C01_any_two, C01_needs_copy, wiring_ok, C01_current_code) over Model/Heap.lean and the table
-Generated/Wiring.lean that harness/extract/wiring.py rewrites from /repo on every run.
-Tie: (1) the wiring extractor (deep copy in simulate(), single read_in_emissions per simulation,
-generation ignores life-cycle fields); (2) real Source.activate_emissions driven day by day on random
-pending lists (sorted and unsorted) vs drv_heap; (3) whole simulations in debug mode and with process
-pools, with permuted program order: the pickled scenario is read back and the model's `expected`
-set must equal the identity columns of every program's emissions_summary.csv.
-Oracle: pairwise comparison of the identity columns across the programs of one simulation number.
+Lean: Props/C01.lean over Model/Heap.lean and the table Generated/Wiring.lean that
+harness/extract/wiring.py rewrites from /repo on every run.
+  cursor loop   activateSrc_spec, runSrc_spec, runProgram_eq, activate_complete, activation_day
+  objects       C01_objects / C01_objects_any_two (deep-copy interpreter, ARBITRARY program behaviours that
+                mutate the life-cycle fields of the emissions they hold), C01_needs_copy (consumption and
+                mutation witnesses of the in-place interpreter), C01, C01_any_two (identity level)
+  tables        wiring_ok, copy_hooks_ok, reduce_keeps_every_init_field, identity_fields_pickled,
+                C01_current_code(_objects)
+Tie
+ (1) the wiring extractor;
+ (2) source stage: real Source.activate_emissions driven day by day on random pending lists (sorted and
+     unsorted) vs `drv_heap day`; for sorted lists also `drv_heap handout` (Lean `handedOutOn`) and the
+     activation-day oracle (an emission is handed out exactly once, on day max(start, 0));
+ (3) object stage: real Component + Source + emission objects; k "programs" (the real no-LDAR day loop:
+     activate_emissions + update_emissions_state) run one after another on `copy.deepcopy` of the
+     component, on a pickle round trip of it (what a pool worker receives), or in place, vs
+     `drv_heap runo` (Lean `runScheduleO`); oracle: under both copies every program faces the pristine
+     scenario (identity fields intact, life-cycle fields as generated) and the original is untouched;
+ (4) whole simulations in debug mode and with process pools, permuted program order, 1 / 2 / 6 simulation
+     numbers (6 crosses the batch-of-five boundary): the pickled scenario of every simulation number is
+     read back, `drv_heap expectedfull` (whole identity incl. Theoretical End Date = start + nrd of
+     repairable emissions) must equal the identity columns of every program's emissions_summary.csv.
+Oracle: pairwise comparison of the identity columns across the programs of one simulation number, and
+with the scenario.
 """
+import copy
+import json
 import os
 import pickle
 from datetime import date, timedelta
@@ -18,19 +35,59 @@ from harness import core
 from harness.core import LeanDriver
 
 MANIFEST_ENTRY = {
-    "text": "Lean theorems over an explicit model of the pending lists and the activation cursor: activateSrc_spec/runSrc_spec (one call of Source.activate_emissions hands out exactly the longest started prefix in pop order; N days hand out takeWhile(start <= last day), nothing skipped or duplicated, no sortedness needed), activate_complete (sorted scenario => every emission starting within the period, each once), C01 / C01_any_two (deep-copy interpreter: for every program list, every partition over workers and every order, each program is confronted with exactly the expected set), C01_needs_copy (the shared interpreter violates it), wiring_ok + C01_current_code (obligations over the table extracted from simulate(), _setup_programs and Source.generate_emissions on every run). Tied to the code by the extractor, by day-by-day correspondence with the real Source.activate_emissions and by whole simulations (debug and pools, permuted program order) whose pickled scenario is read back.",
+    "text": "Lean theorems over an explicit model of the pending lists, the activation cursor and mutable emission objects: activateSrc_spec/runSrc_spec (one call of Source.activate_emissions hands out exactly the longest started prefix in pop order; N days hand out takeWhile(start <= last day), nothing skipped or duplicated, no sortedness needed), activate_complete (sorted scenario => every emission starting within the period, each once), activation_day (sorted => handed out exactly on day max(start,0)), C01_objects / C01_objects_any_two (store entries carry identity = id,start,rate,repairability,natural end and a mutable life-cycle field; programs have ARBITRARY, universally quantified behaviours that mutate every emission they hold every day; `copied` = run on deepcopy of the infrastructure object, `shared` = in place: under `copied`, for every program list, every partition over workers and every order, each program faces exactly the pristine emission objects of the scenario that start within the period - not definitional: proved through runProgramO_proj / facedBy_fst), C01_needs_copy (the in-place interpreter violates it: lists consumed, and a mutation witness where the second program faces the right identities already repaired by the first), table obligations wiring_ok, copy_hooks_ok (no __deepcopy__/__copy__/__reduce_ex__/__getstate__ in virtual_world/* and emission_types/*, no field dropped or misplaced by a __reduce__/reconstructor pair, _create_emission and its helpers touch no life-cycle attribute), reduce_keeps_every_init_field (recomputed in Lean from the raw tables), identity_fields_pickled, C01_current_code(_objects). Tied to the code by the extractor, by day-by-day correspondence with the real Source.activate_emissions, by real copy.deepcopy / pickle / in-place runs of real Component objects against the object-level interpreter, and by whole simulations (debug and pools, permuted program order, 1/2/6 simulation numbers) whose pickled scenarios are read back and compared, whole identity incl. Theoretical End Date, with every program's records.",
     "design_ref": "DESIGN.md 5.1",
-    "note": "trusted: Lean kernel + standard axioms; the syntactic wiring extractor (ast patterns, fails loudly when a pattern is missing); pickling fidelity of the emission classes' __reduce__ and OS process scheduling are exercised by the whole runs, not proved; sortedness of generated lists is C16's generate_sorted and is also measured here on every pickled scenario",
-    "technique": "Lean 4 proofs over a pending-list/cursor model + table extracted from the source + differential correspondence + whole-run oracle",
+    "note": "trusted: Lean kernel + standard axioms; the syntactic wiring extractor (ast patterns, fails loudly when a pattern is missing); in the functional model `deepcopy` is provably the identity on values (deepcopy_eq) - that the real copy.deepcopy / pickle of the real classes is faithful and isolating is exercised by the object stage and the whole runs, and the __reduce__ tables are obligations, but it is not proved; OS process scheduling is exercised, not proved; sortedness of generated lists is C16's generate_sorted and is also measured here on every pickled scenario",
+    "technique": "Lean 4 proofs over a pending-list/cursor/object model + tables extracted from the source + differential correspondence on real objects + whole-run oracle",
 }
 MODULE = "LdarModel.Props.C01"
 FILE = "LdarModel/Props/C01.lean"
 
 
-def source_stage(ctx):
+# ---------------------------------------------------------------------------------------------
+# source stage: the cursor loop
+# ---------------------------------------------------------------------------------------------
+def _real_source(starts, nrd=5):
     from harness.adapters import emission as E
     from virtual_world.sources import Source
 
+    ems = [E.make_emission(s, nrd, 0, True, False, 1, 0) for s in starts]
+    for i, e in enumerate(ems):
+        e._emissions_id = str(i)
+    pend = list(reversed(ems))  # stored reversed: pop() yields pop order
+    src = Source._reconstruct("S", True, True, 1, 0, True, {0: pend}, None, None, None, None, None, None, None, "repairable")
+    return src, ems
+
+
+def source_case(n, starts):
+    """drives the real Source; returns (per-day id lists as strings, {id: [days handed out]})"""
+    from harness.adapters import emission as E
+
+    src, ems = _real_source(starts)
+    impl, days = [], {}
+    for d in range(n):
+        got = src.activate_emissions(E.SIM_START + timedelta(days=d), 0)
+        impl.append("[" + ",".join(e._emissions_id for e in got) + "]")
+        for e in got:
+            days.setdefault(int(e._emissions_id), []).append(d)
+    return impl, days
+
+
+def source_oracle(n, starts, days):
+    """sorted pending list: every emission that starts within the period is handed out exactly once,
+    on day max(start, 0); nothing else is"""
+    out = []
+    if starts != sorted(starts):
+        return out
+    for i, s in enumerate(starts):
+        want = [max(s, 0)] if s <= n - 1 else []
+        if days.get(i, []) != want:
+            sig = "C01:activation-incomplete" if len(days.get(i, [])) != len(want) else "C01:activation-day"
+            out.append((sig, f"emission {i} (start {s}) handed out on days {days.get(i, [])}, expected {want}"))
+    return out
+
+
+def source_stage(ctx):
     lines, cases = [], []
     for _ in range(ctx.pick(1500, 40000)):
         n = ctx.rng.randint(1, 8)
@@ -42,36 +99,178 @@ def source_stage(ctx):
         lines.append("reset")
         lines.append("src [" + ",".join("[%d,%d]" % (i, s) for i, s in enumerate(starts)) + "]")
         lines += ["day %d" % d for d in range(n)]
+        lines.append("reset")
+        lines.append("src [" + ",".join("[%d,%d]" % (i, s) for i, s in enumerate(starts)) + "]")
+        lines.append("handout %d" % n)
     out = LeanDriver("drv_heap").run(lines)
     pos = 0
     for (n, starts) in cases:
         pos += 2
         model = out[pos:pos + n]
-        pos += n
-        ems = [E.make_emission(s, 5, 0, True, False, 1, 0) for s in starts]
-        for i, e in enumerate(ems):
-            e._emissions_id = str(i)
-        pend = list(reversed(ems))  # stored reversed: pop() yields pop order
-        src = Source._reconstruct("S", True, True, 1, 0, True, {0: pend}, None, None, None, None, None, None, None, "repairable")
-        impl = []
-        for d in range(n):
-            got = src.activate_emissions(E.SIM_START + timedelta(days=d), 0)
-            impl.append("[" + ",".join(e._emissions_id for e in got) + "]")
+        pos += n + 2
+        handout = out[pos]
+        pos += 1
+        impl, days = source_case(n, starts)
         ctx.evaluations += 1
         ctx.traces += 1
         if impl != model:
             ctx.disagree("heap/Source.activate_emissions", {"n": n, "starts": starts}, model, impl)
-        # oracle at this level: sorted list => everything that has started is activated exactly once
+        # Lean `handedOutOn` (the function `activation_day` is about) vs the real per-day hand-outs
+        real_handout = "[" + ",".join(x for d in range(n) for x in
+                                      ["%s@%d" % (i, d) for i in impl[d].strip("[]").split(",") if i]) + "]"
+        if handout != real_handout:
+            ctx.disagree("heap/handedOutOn", {"n": n, "starts": starts}, handout, real_handout)
+        for sig, what in source_oracle(n, starts, days):
+            ctx.violate(sig, "sorted pending list: " + what, {"n": n, "starts": starts, "activated": impl})
         if starts == sorted(starts):
-            want = [str(i) for i, s in enumerate(starts) if s <= n - 1]
-            flat = [x for d in impl for x in d.strip("[]").split(",") if x]
-            if flat != want:
-                ctx.violate("C01:activation-incomplete", "sorted pending list: activated set != emissions started within the period",
-                            {"n": n, "starts": starts, "activated": impl})
+            ctx.count("source_cases_sorted")
+            if any(s < 0 for s in starts):
+                ctx.count("source_cases_with_preexisting")
         ctx.nontrivial.add((n, tuple(starts)))
     ctx.sample({"pending_starts": cases[0][1], "days": cases[0][0]})
 
 
+# ---------------------------------------------------------------------------------------------
+# object stage: real copy.deepcopy / pickle / in place on real Component objects
+# ---------------------------------------------------------------------------------------------
+def object_case(n, groups, k, mode):
+    """groups = per source [(start, nrd, repairable, rate1024)] sorted by start (emission ids restart at 0
+    in every source, as in Source.generate_emissions); k programs = the real no-LDAR day loop on `mode` in
+    {"deepcopy", "pickle", "shared"} of one real Component holding one real Source per group.
+    returns (faced per program: per source [(id, active_days as found)], identity_ok, original_untouched)"""
+    from harness.adapters import emission as E
+    from file_processing.output_processing.output_utils import EmisInfo, TsEmisData
+    from virtual_world.component import Component
+    from virtual_world.sources import Source
+
+    srcs, all_ems, want_ident = [], [], {}
+    for gi, specs in enumerate(groups):
+        ems = []
+        for i, (st, nrd, rep, r) in enumerate(specs):
+            e = E.make_emission(st, nrd, 0, rep, False, 1, 0, rate=r / 1024.0)
+            e._emissions_id = str(i)
+            e._verif_src = gi          # harness-side label; lives in __dict__, so every copy carries it
+            ems.append(e)
+            want_ident[(gi, i)] = (i, st, r, rep, nrd)
+        all_ems += ems
+        pend = sorted(ems, key=lambda e: e._start_date, reverse=True)
+        srcs.append(Source._reconstruct(f"S{gi}", True, True, 1, 0, True, {0: pend}, None, None, None, None, None,
+                                        None, None, "repairable"))
+    comp = Component._reconstruct("comp", "comp_1", srcs, [], [], {})
+    orig_pending = [[int(e._emissions_id) for e in s._generated_emissions[0]] for s in srcs]
+
+    def ident(e):
+        return (int(e._emissions_id), (e._start_date - E.SIM_START).days, int(e._rate * 1024), bool(e._repairable),
+                int(e._nrd if e._repairable else e._duration))
+
+    faced, identity_ok = [], True
+    for p in range(k):
+        if mode == "deepcopy":
+            target = copy.deepcopy(comp)
+        elif mode == "pickle":
+            target = pickle.loads(pickle.dumps(comp))
+        else:
+            target = comp
+        seen = [[] for _ in groups]
+        for e in list(target._active_emissions) + list(target._inactive_emissions):
+            seen[e._verif_src].append((int(e._emissions_id), e._active_days))
+            identity_ok = identity_ok and ident(e) == want_ident[(e._verif_src, int(e._emissions_id))]
+        for d in range(n):
+            cur = E.SIM_START + timedelta(days=d)
+            before = len(target._active_emissions)
+            target.activate_emissions(cur, 0)
+            for e in target._active_emissions[before:]:
+                seen[e._verif_src].append((int(e._emissions_id), e._active_days))
+                identity_ok = identity_ok and ident(e) == want_ident[(e._verif_src, int(e._emissions_id))]
+            target.update_emissions_state(EmisInfo(), TsEmisData())
+        faced.append([sorted(x) for x in seen])
+    untouched = (not comp._active_emissions and not comp._inactive_emissions
+                 and all(s._next_emission is None for s in srcs)
+                 and [[int(e._emissions_id) for e in s._generated_emissions[0]] for s in srcs] == orig_pending
+                 and all(e._active_days == 0 and e.get_status() == "inactive" for e in all_ems))
+    return faced, identity_ok, untouched
+
+
+def object_model_lines(n, groups, k, mode):
+    return (["reset"]
+            + ["src [" + ",".join("[%d,%d,%d,%d,%d]" % (i, st, r, int(rep), nrd) for i, (st, nrd, rep, r) in enumerate(specs)) + "]"
+               for specs in groups]
+            + ["runo %d %s %d" % (n, "shared" if mode == "shared" else "copied", k)])
+
+
+def object_oracle(n, groups, k, mode, faced, identity_ok, untouched):
+    out = []
+    if mode == "shared":
+        return out
+    want = [sorted((i, 0) for i, (st, nrd, rep, r) in enumerate(specs) if st <= n - 1) for specs in groups]
+    if not identity_ok:
+        out.append(("C01:copy-not-faithful", f"{mode}: an identity field of an emission changed in the copy"))
+    if not untouched:
+        out.append(("C01:copy-not-isolating", f"{mode}: running a program on the copy changed the original object"))
+    for p, f in enumerate(faced):
+        if f != want:
+            out.append(("C01:copy-not-pristine", f"{mode}: program {p} does not face the pristine scenario: {f} != {want}"))
+            break
+    return out
+
+
+def _object_group(rng, n):
+    specs = sorted(((rng.randint(-4, n + 1), rng.randint(1, 9), rng.random() < 0.7, rng.choice([256, 512, 1024, 2048]))
+                    for _ in range(rng.randint(0, 4))), key=lambda x: x[0])
+    # an emission generated `nrd` or more days before the start is outside the generator's range
+    return [(st, max(nrd, 1 - st) if st < 0 else nrd, rep, r) for (st, nrd, rep, r) in specs]
+
+
+def object_stage(ctx):
+    lines, cases, pos = [], [], []
+    for _ in range(ctx.pick(400, 8000)):
+        n = ctx.rng.randint(1, 8)
+        # one to three sources at the component; emission ids restart at 0 in each
+        groups = [_object_group(ctx.rng, n) for _ in range(ctx.rng.choice([1, 2, 2, 3]))]
+        k = ctx.rng.randint(1, 3)
+        mode = ctx.rng.choice(["deepcopy", "pickle", "shared"])
+        cases.append((n, groups, k, mode))
+        lines += object_model_lines(n, groups, k, mode)
+        pos.append(len(lines) - 1)
+
+    def canon(s):
+        res = []
+        for part in s.split(" ") if s else []:
+            p, body = part.split("=", 1)
+            per_src = []
+            for grp in body[1:-1].replace("],[", "]|[").split("|") if body not in ("[]", "") else []:
+                per_src.append(sorted(tuple(int(v) for v in x.split("/")) for x in grp.strip("[]").split(",") if x))
+            res.append((int(p), per_src))
+        return res
+
+    out = LeanDriver("drv_heap").run(lines)
+    for (n, groups, k, mode), at in zip(cases, pos):
+        ml = out[at]
+        faced, identity_ok, untouched = object_case(n, groups, k, mode)
+        impl = [(p, [[tuple(x) for x in src] for src in f]) for p, f in enumerate(faced)]
+        ctx.evaluations += 1
+        ctx.traces += 1
+        inp = {"object_case": {"n": n, "groups": [[list(s) for s in g] for g in groups], "k": k, "mode": mode}}
+        # model lists are in hand-out order, the real ones in list order: compared sorted by id
+        if canon(ml) != impl:
+            ctx.disagree("heap/objects-" + mode, inp, ml, str(impl))
+        for sig, what in object_oracle(n, groups, k, mode, faced, identity_ok, untouched):
+            ctx.violate(sig, what, inp)
+        ctx.count("object_cases_" + mode)
+        ids_coincide = len(groups) > 1 and any(
+            {i for i, s in enumerate(groups[a]) if s[0] <= n - 1} & {i for i, s in enumerate(groups[b]) if s[0] <= n - 1}
+            for a in range(len(groups)) for b in range(a + 1, len(groups)))
+        if ids_coincide:
+            ctx.count("object_cases_sibling_sources_with_coinciding_ids")
+        if mode == "shared" and k > 1 and any(any(life > 0 for src in f for _, life in src) for f in faced[1:]):
+            ctx.count("object_cases_shared_second_program_faces_mutated_objects")
+        ctx.nontrivial.add(("obj", mode, k, n, repr(groups)))
+    ctx.sample({"object_case": cases[0]})
+
+
+# ---------------------------------------------------------------------------------------------
+# whole-run stage
+# ---------------------------------------------------------------------------------------------
 IDENT = ["Site ID", "Equipment", "Component", "Repairable", "Emissions ID", "Date Began", '"True" Rate (g/s)',
          "Theoretical End Date"]
 
@@ -97,13 +296,126 @@ def scenario_rows(res, sim):
     return rows, sources
 
 
-def whole_stage(ctx):
-    import concurrent.futures as cf
+def _nrd(e):
+    return int(e._nrd) if e._repairable else int(e._duration)
+
+
+def judge_simulation(ctx, res, cfg, mode, sim, record=True):
+    """oracle + model comparison for one simulation number of one finished run; returns raised signatures"""
+    raised = []
+
+    def viol(sig, what, inp):
+        raised.append(sig)
+        if record:
+            ctx.violate(sig, what, inp)
+
+    end = res.end
+    rows, sources = scenario_rows(res, sim)
+    unsorted = [k for k, lst in sources if [e._start_date for e in lst] != sorted(e._start_date for e in lst)]
+    if unsorted:
+        viol("C01:scenario-list-not-sorted", "a generated pending list is not sorted by start date",
+             {"cfg": cfg, "mode": mode, "sim": sim, "source": unsorted[0]})
+    want = sorted((r[0], r[1], r[2], str(r[3]), r[4], str(r[5]), r[6]) for r in rows if r[5] <= end)
+    per_prog = {}
+    for prog in res.programs:
+        recs = res.emissions(prog, sim)
+        if recs is None:
+            viol("C01:records-missing", "a program of a finished run has no emissions_summary.csv for a simulation number",
+                 {"cfg": cfg, "mode": mode, "sim": sim, "program": prog})
+            recs = []
+        per_prog[prog] = sorted(tuple(r[c] for c in IDENT) for r in recs)
+        got = sorted((r["Site ID"], r["Equipment"], r["Component"], r["Repairable"], r["Emissions ID"],
+                      r["Date Began"][:10], float(r['"True" Rate (g/s)'])) for r in recs)
+        if record:
+            ctx.evaluations += 1
+        if got != want:
+            miss = [x for x in want if x not in got][:3]
+            extra = [x for x in got if x not in want][:3]
+            viol("C01:program-vs-scenario", "a program's emission records differ from the pre-generated scenario",
+                 {"cfg": cfg, "mode": mode, "sim": sim, "program": prog, "missing": miss, "unexpected": extra})
+    base = res.cfg["baseline"]
+    for prog in res.programs:
+        # Theoretical End Date of a non-repairable emission is its expiry date (empty until it expires) and
+        # identical across programs by C03; compared here as part of the identity
+        if per_prog[prog] != per_prog[base]:
+            a, b = per_prog[prog], per_prog[base]
+            diff = [x for x in a if x not in b][:3] + [x for x in b if x not in a][:3]
+            viol("C01:programs-differ", "identity columns differ between two programs of one simulation",
+                 {"cfg": cfg, "mode": mode, "sim": sim, "programs": [prog, base], "diff": diff})
+    # ---- model: expected set, whole identity, from the pickled pending lists --------------------------
+    lines = ["reset"]
+    for _, lst in sources:
+        lines.append("src [" + ",".join("[%d,%d,%d,%d,%d]" % (
+            int(e._emissions_id), (e._start_date - res.start).days, int(round(float(e._rate) * 1024)),
+            int(bool(e._repairable)), _nrd(e)) for e in lst) + "]")
+    lines.append("expectedfull %d" % res.ndays)
+    lines.append("run %d copied [[%s]]" % (res.ndays, ",".join(str(i) for i in range(len(res.programs)))))
+    out = LeanDriver("drv_heap").run(lines)
+    exp_full = out[-2].split(";") if sources else []
+    runs = out[-1].split(" ")
+    if record:
+        ctx.traces += 1
+    # expected identity tuples per (site, eqg, comp, repairable)
+    model = {}
+    for ((site, eqg, comp, src), lst), part in zip(sources, exp_full):
+        for item in [x for x in part.strip("[]").split(",") if x]:
+            i, st, r1024, rep, nrd, te = item.split(":")
+            model.setdefault((site, eqg, comp, rep == "1"), []).append(
+                (int(i), int(st), int(r1024), rep == "1", None if te == "-" else int(te)))
+    exp_ids = json.dumps([[int(x.split(":")[0]) for x in part.strip("[]").split(",") if x] for part in exp_full])
+    for i, prog in enumerate(res.programs):
+        recs = res.emissions(prog, sim) or []
+        got = {}
+        for r in recs:
+            rep = r["Repairable"] == "True"
+            te = res.day_index(r["Theoretical End Date"]) if rep else None
+            got.setdefault((r["Site ID"], r["Equipment"], r["Component"], rep), []).append(
+                (int(r["Emissions ID"]), res.day_index(r["Date Began"]), int(round(float(r['"True" Rate (g/s)']) * 1024)),
+                 rep, te))
+        canon = lambda d: {k: sorted(v, key=lambda t: (t[0], t[1])) for k, v in d.items() if v}
+        if canon(got) != canon(model):
+            gk, mk = canon(got), canon(model)
+            bad = next((k for k in sorted(set(gk) | set(mk)) if gk.get(k) != mk.get(k)), None)
+            if record:
+                ctx.disagree("heap/whole-run-expected", {"cfg": cfg, "mode": mode, "sim": sim, "program": prog,
+                                                         "source": bad}, mk.get(bad), gk.get(bad))
+            # the model's expectation is the scenario itself (theoretical end = start + natural repair delay):
+            # a record that differs from it is a violation of the property, not only of the correspondence
+            viol("C01:identity-vs-scenario",
+                 "a program's records differ from the scenario in an identity field (id, start, rate, repairability, "
+                 "theoretical end date = start + natural repair delay)",
+                 {"cfg": cfg, "mode": mode, "sim": sim, "program": prog, "source": bad,
+                  "scenario": mk.get(bad), "records": gk.get(bad)})
+        if record and sorted(map(sorted, json.loads(runs[i].split("=", 1)[1]))) != sorted(map(sorted, json.loads(exp_ids))):
+            ctx.disagree("heap/run-vs-expected", {"cfg": cfg, "mode": mode, "sim": sim}, runs[i], exp_ids)
+    if record:
+        ctx.nontrivial.add(("wr", mode["debug"], mode["processes"], tuple(res.programs), sim, len(want)))
+        ctx.count("wholerun_simulations_checked")
+        if sim >= 1:
+            ctx.count("wholerun_simulations_checked_sim_ge_1")
+        if sim >= 5:
+            ctx.count("wholerun_simulations_checked_second_batch")
+    return raised
+
+
+def whole_jobs(ctx):
     from harness import wholerun as W
 
     jobs = []
-    for _ in range(ctx.pick(2, 8)):
-        cfg = W.make_config(ctx.rng)
+    for j in range(ctx.pick(2, 8)):
+        if j == 0:
+            # two simulation numbers; placeholder infrastructure whose components own a repairable AND a
+            # non-repairable source, both productive with long-lived emissions: the emission ids of sibling
+            # sources coincide (ids restart at 0 per source) and such emissions overlap in time
+            cfg = W.make_config(ctx.rng, n_sims=2, granular=False, ndays=200, n_sites=5,
+                                rep={"epr": 0.03125, "duration": 120, "multi": True},
+                                nonrep={"epr": 0.015625, "duration": 90, "multi": True})
+        elif j % 2 == 0:
+            # two simulation numbers on a generated configuration
+            cfg = W.make_config(ctx.rng, n_sims=2)
+        else:
+            # six simulation numbers (crosses the batch-of-five boundary) on a small configuration
+            cfg = W.make_config(ctx.rng, n_sims=6, ndays=120, n_sites=4)
         if len(cfg["programs"]) < 4:
             cfg["programs"].append({"name": "P_fix", "methods": ["FIX", "OGI_FU2"]})
         jobs.append((cfg, True, 1))
@@ -115,97 +427,142 @@ def whole_stage(ctx):
         # more programs than 4 x pool processes: Pool.starmap then sends several program tasks to a
         # worker in one chunk, i.e. pickled together (they share one unpickled infrastructure object)
         cfg3 = dict(cfg)
+        cfg3["n_sims"] = 1 if j % 2 == 0 else 2
         cfg3["programs"] = list(cfg["programs"]) + [{"name": "P_OGIb", "methods": ["OGI"]},
                                                      {"name": "P_airb", "methods": ["AIR", "OGI_FU"]}]
         jobs.append((cfg3, False, 1))
-    with cf.ThreadPoolExecutor(max_workers=4) as ex:
+    return jobs
+
+
+def whole_stage(ctx):
+    import concurrent.futures as cf
+    from harness import wholerun as W
+
+    jobs = whole_jobs(ctx)
+    with cf.ThreadPoolExecutor(max_workers=6) as ex:
         results = list(ex.map(lambda j: W.run_config(j[0], debug=j[1], processes=j[2], trace=False), jobs))
+    ok_modes = {"debug": 0, "pool": 0, "chunked": 0}
+    last_log = ""
+    crashed = []
     try:
-        for (cfg, debug, procs), res in zip(jobs, results):
-            mode = {"debug": debug, "processes": procs, "program_order": [p["name"] for p in cfg["programs"]]}
+        for k, ((cfg, debug, procs), res) in enumerate(zip(jobs, results)):
+            mode = {"debug": debug, "processes": procs, "program_order": [p["name"] for p in cfg["programs"]],
+                    "n_sims": cfg["n_sims"]}
             if res.rc != 0:
                 ctx.count("wholerun_config_crashed")
-                ctx.note("whole run crashed (skipped): " + res.log.strip().splitlines()[-1][:200])
+                ctx.note("whole run crashed: " + res.log.strip().splitlines()[-1][:200])
+                last_log = res.log
+                crashed.append((cfg, mode, res.log))
                 continue
-            end = res.end
+            ok_modes[("debug", "pool", "chunked")[k % 3]] += 1
             for sim in range(res.n_sims):
-                rows, sources = scenario_rows(res, sim)
-                unsorted = [k for k, lst in sources if [e._start_date for e in lst] != sorted(e._start_date for e in lst)]
-                if unsorted:
-                    ctx.violate("C01:scenario-list-not-sorted", "a generated pending list is not sorted by start date",
-                                {"cfg": cfg, "source": unsorted[0]})
-                want = sorted((r[0], r[1], r[2], str(r[3]), r[4], str(r[5]), r[6]) for r in rows if r[5] <= end)
-                per_prog = {}
-                for prog in res.programs:
-                    recs = res.emissions(prog, sim) or []
-                    per_prog[prog] = sorted(tuple(r[c] for c in IDENT) for r in recs)
-                    got = sorted((r["Site ID"], r["Equipment"], r["Component"], r["Repairable"], r["Emissions ID"],
-                                  r["Date Began"][:10], float(r['"True" Rate (g/s)'])) for r in recs)
-                    ctx.evaluations += 1
-                    if got != want:
-                        miss = [x for x in want if x not in got][:3]
-                        extra = [x for x in got if x not in want][:3]
-                        ctx.violate("C01:program-vs-scenario", "a program's emission records differ from the pre-generated scenario",
-                                    {"cfg": cfg, "mode": mode, "sim": sim, "program": prog, "missing": miss, "unexpected": extra})
-                base = res.cfg["baseline"]
-                for prog in res.programs:
-                    # Theoretical End Date of a non-repairable emission is its expiry date (empty until it
-                    # expires) and identical across programs by C03; compared here as part of the identity
-                    if per_prog[prog] != per_prog[base]:
-                        a, b = per_prog[prog], per_prog[base]
-                        diff = [x for x in a if x not in b][:3] + [x for x in b if x not in a][:3]
-                        ctx.violate("C01:programs-differ", "identity columns differ between two programs of one simulation",
-                                    {"cfg": cfg, "mode": mode, "sim": sim, "programs": [prog, base], "diff": diff})
-                # model: expected set from the pickled pending lists
-                lines = ["reset"] + ["src [" + ",".join("[%d,%d]" % (int(e._emissions_id), (e._start_date - res.start).days)
-                                                         for e in lst) + "]" for _, lst in sources]
-                lines.append("expected %d" % res.ndays)
-                lines.append("run %d copied [[%s]]" % (res.ndays, ",".join(str(i) for i in range(len(res.programs)))))
-                out = LeanDriver("drv_heap").run(lines)
-                exp = out[-2]
-                runs = out[-1].split(" ")
-                ctx.traces += 1
-                for i, prog in enumerate(res.programs):
-                    recs = res.emissions(prog, sim) or []
-                    per_src = []
-                    for (site, eqg, comp, src), lst in sources:
-                        rep = bool(lst[0]._repairable) if lst else None
-                        ids = sorted(int(r["Emissions ID"]) for r in recs
-                                     if (r["Site ID"], r["Equipment"], r["Component"]) == (site, eqg, comp)
-                                     and (rep is None or r["Repairable"] == str(rep)))
-                        per_src.append(ids if lst else [])
-                    got = "[" + ",".join("[" + ",".join(str(x) for x in ids) + "]" for ids in per_src) + "]"
-                    # model lists are in pop (= start) order; ids are issued in generation order, so sort both
-                    def canon(s):
-                        import json as _j
-                        return [sorted(part) for part in _j.loads(s)]
-                    if canon(got) != canon(exp) or canon(runs[i].split("=", 1)[1]) != canon(exp):
-                        ctx.disagree("heap/whole-run-expected", {"cfg": cfg, "mode": mode, "sim": sim, "program": prog}, exp, got)
-                ctx.nontrivial.add(("wr", debug, procs, tuple(res.programs), len(want)))
+                judge_simulation(ctx, res, cfg, mode, sim)
             ctx.sample({"whole_run": mode, "sites": cfg["n_sites"], "granular": cfg["granular"]}, cap=8)
             ctx.count("wholerun_runs")
+            ctx.count("wholerun_runs_n_sims_%d" % cfg["n_sims"])
+            if not cfg["granular"] and cfg["rep"]["epr"] > 0 and cfg["nonrep"]["epr"] > 0:
+                ctx.count("wholerun_runs_components_with_two_productive_sources")
+        # a crash is judged by the property that owns it — unless it depends on HOW the programs are
+        # scheduled: the same configuration completes when its programs are simulated one after another in
+        # debug mode but not in the pool.  "in whatever order or process the programs are simulated" is C01's.
+        for cfg, mode, log in crashed:
+            if mode["debug"]:
+                continue
+            sig = crash_depends_on_schedule(cfg)
+            if sig:
+                ctx.violate(sig, "a configuration completes in debug mode but crashes when the same programs are "
+                                 "simulated in a process pool: " + log.strip().splitlines()[-1][:200],
+                            {"cfg": cfg, "mode": mode})
+        ctx.extra["wholerun_ok_by_mode"] = ok_modes
+        # guard: the whole-run stage carries the tie of the non-interference half to the code; a run of
+        # the check in which a mode never completed (and no failing input explains it) proves nothing
+        dead = [m for m, n in ok_modes.items() if n == 0]
+        if dead and not ctx.violations:
+            raise core.InfraError("every whole run crashed in mode(s) %s (infrastructure): %s" % (dead, last_log[-1500:]))
     finally:
         for res in results:
             res.cleanup()
+
+
+def crash_depends_on_schedule(cfg):
+    """the configuration crashed in a pool; does it complete in debug mode?"""
+    from harness import wholerun as W
+
+    res = W.run_config(cfg, debug=True, processes=1, trace=False)
+    try:
+        return "C01:crash-depends-on-schedule" if res.rc == 0 else None
+    finally:
+        res.cleanup()
 
 
 def run(ctx):
     from harness.extract import wiring
 
     ctx.rule = ("source stage: random pending lists (0-5 emissions, 70% sorted) x 1-8 days through the real "
-                "Source.activate_emissions; whole runs: generated configurations with 4 programs in debug mode and "
-                "in pools of 2-4 processes with shuffled program order; distinct by list / (mode, order, #emissions)")
+                "Source.activate_emissions (+ Lean handedOutOn, activation-day oracle); object stage: real Components with "
+                "0-4 emissions, 1-3 programs (real no-LDAR day loop) on copy.deepcopy / pickle round trip / in place vs the "
+                "object-level interpreter; whole runs: generated configurations with 4 programs in debug mode and in pools "
+                "of 2-4 processes with shuffled program order, 6 programs on a 1-process pool, with 1, 2 and 6 simulation "
+                "numbers; distinct by list / object case / (mode, order, simulation number, #emissions)")
     facts = wiring.extract()
     wiring.write(facts)
-    ctx.extra["wiring_table"] = facts
+    ctx.extra["wiring_table"] = {k: v for k, v in facts.items() if k not in ("reduceArgs", "initAttrs")}
+    ctx.extra["wiring_reduce_classes"] = [c for c, _ in facts["reduceArgs"]]
     core.lean_stage(ctx, MODULE, FILE, drivers=["drv_heap"])
     source_stage(ctx)
+    object_stage(ctx)
     whole_stage(ctx)
 
 
 def replay(ctx, data):
-    print(data.get("signature"), "-", data.get("what"))
-    print(str(data.get("input"))[:4000])
-    print("replay: re-run input.cfg with harness.wholerun.run_config(cfg, debug=mode.debug, processes=mode.processes) "
-          "and compare the identity columns of the programs' emissions_summary.csv")
+    """re-executes the stored input (the configuration with harness/wholerun.py in the stored mode, or the
+    stored source / object case) and re-evaluates the oracle; exit 1 iff it still fails"""
+    inp = data.get("input") or {}
+    sig = data.get("signature")
+    print(sig, "-", data.get("what"))
+    if "cfg" in inp and "mode" in inp:
+        from harness import wholerun as W
+
+        mode = inp["mode"]
+        res = W.run_config(inp["cfg"], debug=mode["debug"], processes=mode["processes"], trace=False)
+        try:
+            if res.rc != 0:
+                print("replay: the stored configuration crashes in the stored mode:\n" + res.log[-800:])
+                if not mode["debug"] and crash_depends_on_schedule(inp["cfg"]):
+                    print("replay: ... and completes in debug mode: C01:crash-depends-on-schedule")
+                    print("replay:", "still fails" if sig in (None, "C01:crash-depends-on-schedule") else "fails differently")
+                    return 1
+                return 2
+            raised = []
+            for sim in range(res.n_sims):
+                raised += judge_simulation(ctx, res, inp["cfg"], mode, sim, record=False)
+            print("replay: re-ran the stored configuration (debug=%s, processes=%s, %d simulation(s)); oracle raised: %s"
+                  % (mode["debug"], mode["processes"], res.n_sims, sorted(set(raised)) or "nothing"))
+            still = (sig in raised) if sig else bool(raised)
+            print("replay:", "still fails" if still else "no longer fails")
+            return 1 if still else 0
+        finally:
+            res.cleanup()
+    if "starts" in inp:
+        impl, days = source_case(inp["n"], inp["starts"])
+        raised = source_oracle(inp["n"], inp["starts"], days)
+        print("real Source.activate_emissions per day:", impl)
+        for s, what in raised:
+            print("oracle:", s, "-", what)
+        still = any(s == sig for s, _ in raised) if sig else bool(raised)
+        print("replay:", "still fails" if still else "no longer fails")
+        return 1 if still else 0
+    if "object_case" in inp:
+        c = inp["object_case"]
+        groups = [[tuple(s) for s in g] for g in c["groups"]]
+        faced, identity_ok, untouched = object_case(c["n"], groups, c["k"], c["mode"])
+        raised = object_oracle(c["n"], groups, c["k"], c["mode"], faced, identity_ok, untouched)
+        print("faced:", faced)
+        for s, what in raised:
+            print("oracle:", s, "-", what)
+        still = any(s == sig for s, _ in raised) if sig else bool(raised)
+        print("replay:", "still fails" if still else "no longer fails")
+        return 1 if still else 0
+    print("replay: nothing executable in this file (broken-obligation record):")
+    print(json.dumps(data, default=str)[:4000])
     return 1
